@@ -20,6 +20,7 @@ RULE = ('messages produced by the independent reference model R (random + mandat
         'difference widths) and every sample file; a case is non-trivial when the real decoder '
         'returned, >=3 fields were compared and the template has an operator, replication, '
         'compression or a missing value; distinct by SHA-1 of the message bytes')
+RULE += '; added with rounds 10-12: a long-lived compiling decoder (scoped templates) with near-identical descriptor lists; messages decoded while scans are suspended on the same decoder (mid-scan scenarios: alternate / nested-process / nested-scan / abandoned / late); bytearray input; twins (differently configured instances given the same input first)'
 ASSUMPTIONS = ['R (mon/refbufr) is a correct reading of FM-94 for the shapes of DESIGN appendix A',
                'grey shapes of DESIGN 2.3 are excluded (R answers Unsupported)',
                'floats compared within 4 ulp of the exact rational']
